@@ -40,7 +40,7 @@ GRIDCFG = ['one-uniform', 'one-log', 'two-nested-uniform', 'two-offgrid-uniform'
            # the second molecule is tabulated over the middle of the range only: requests wholly beyond one of its
            # ends see its edge value, exactly as the full computation does at those wavenumbers
            'two-narrow-uniform', 'two-narrow-log']
-MAGS = {'thin': 1e-31, 'tau1': 1e-27, 'mixed': 1.0}
+MAGS = {'thin': 1e-31, 'tau1': 1e-27, 'mixed': 1.0, 'band': 1.0}
 
 
 def install(cfg, mag, kind):
@@ -53,6 +53,10 @@ def install(cfg, mag, kind):
         per = 10 ** np.linspace(-33, -20, len(nat))
         if kind == 'emission':
             per = 10 ** np.linspace(-33, -28.5, len(nat))
+    if mag == 'band':
+        # a strong band over the upper third of the grid (every layer opaque there), thin elsewhere: a window inside the
+        # band is saturated at every computed wavenumber, the full grid is not
+        per = np.where(np.arange(len(nat)) >= (2 * len(nat)) // 3, 1e-21, 1e-30)
     t1 = fx.table(3, 3, len(nat), 1.0, salt=('c13', 'H2O'), per_wn=per) * m
     OpacityCache().add_opacity(fx.TinyOp('H2O', nat, TG, PG, t1))
     grids = {'H2O': nat}
@@ -301,7 +305,7 @@ def explore(ctx):
     thorough = ctx.tier == 'thorough'
     subs = [(i, j) for i in range(10) for j in range(i + 2, 11)]
     mcases = []
-    mags = ['tau1', 'thin', 'mixed']
+    mags = ['tau1', 'thin', 'mixed', 'band']
     for cfg, sub, cutoff, kind, mag in itertools.product(GRIDCFG, subs, [True, False], ['transmission', 'emission'], mags):
         if not thorough:
             if not cutoff and sub not in ((0, 10), (2, 5), (7, 10)):
